@@ -628,36 +628,20 @@ func runC10(c *Check) {
 	}
 }
 
-// canFollowSameIteration: b can execute after a without passing through the header of the outermost
-// loop containing a (i.e. within the same iteration of that loop).
+// canFollowSameIteration: b can execute after a without starting a new iteration of any loop that
+// contains a (i.e. without passing through the header of a loop enclosing a).
 func canFollowSameIteration(a, b ssa.Instruction, fn *ssa.Function) bool {
-	// outermost loop header containing a
-	var outer *ssa.BasicBlock
-	for h := loopHeaderOf(a.Block()); h != nil; {
-		outer = h
-		// climb: find a loop header strictly dominating h that contains h
-		var next *ssa.BasicBlock
-		for d := h.Idom(); d != nil; d = d.Idom() {
-			if lh := loopHeaderOf(d); lh != nil && lh != h && lh.Dominates(h) {
-				// check that h is inside lh's loop
-				if reachableWithin(h, lh, nil) {
-					next = lh
-					break
-				}
-			}
-		}
-		if next == nil || next == h {
-			break
-		}
-		h = next
-	}
 	if a.Block() == b.Block() && instrIndex(a) < instrIndex(b) {
 		return true
+	}
+	stop := map[*ssa.BasicBlock]bool{}
+	for _, h := range enclosingLoops(a.Block()) {
+		stop[h] = true
 	}
 	seen := map[*ssa.BasicBlock]bool{}
 	var q []*ssa.BasicBlock
 	for _, s := range a.Block().Succs {
-		if s != outer && !seen[s] {
+		if !stop[s] && !seen[s] {
 			seen[s] = true
 			q = append(q, s)
 		}
@@ -669,7 +653,7 @@ func canFollowSameIteration(a, b ssa.Instruction, fn *ssa.Function) bool {
 			return true
 		}
 		for _, s := range x.Succs {
-			if s == outer || seen[s] {
+			if stop[s] || seen[s] {
 				continue
 			}
 			seen[s] = true
